@@ -66,6 +66,8 @@ def run_property(pid, tier="quick", seed=0):
 
     # 2. symbolic exploration
     budget = plan.get("time_budget", 420 if tier == "quick" else 1500)
+    if os.environ.get("VERIF_BUDGET"):          # (tools/seed_matrix.sh: a mutated tree need not be explored to the end)
+        budget = float(os.environ["VERIF_BUDGET"])
     # solver-heavy harnesses can be given a phase of their own (no competition for the cores)
     phases = plan.get("phases") or [hnames]
     agg = {}
